@@ -91,11 +91,14 @@ def gen_module(rng, fam: str, kind: str, sc: float = 1.0) -> dict:
             m["center"] = [_coord(rng, unit), _coord(rng, unit)]
         r = rng.random()
         if r < 0.15:
-            m["aspect_ratio"] = rng.choice([0.5, 0.25, 0.3, 1, 0.8])
+            m["aspect_ratio"] = rng.choice([0.5, 0.25, 0.3, 1, 0.8, round(rng.uniform(0.05, 1), 2), round(rng.uniform(0.05, 1), 2)])
         elif r < 0.3:
-            m["aspect_ratio"] = rng.choice([2, 3, 1.5, 4.0])
+            m["aspect_ratio"] = rng.choice([2, 3, 1.5, 4.0, round(rng.uniform(1, 9), 1), round(rng.uniform(1, 5), 2)])
         elif r < 0.45:
-            m["aspect_ratio"] = [rng.choice([0, 0.2, 0.5, 1]), rng.choice([1, 2, 3.5])]
+            m["aspect_ratio"] = [rng.choice([0, 0.2, 0.5, 1, round(rng.uniform(0, 1), 2)]), rng.choice([1, 2, 3.5, round(rng.uniform(1, 6), 2)])]
+            if rng.random() < 0.3:       # a pair that is (almost) reciprocal
+                x = round(rng.uniform(1, 6), 2)
+                m["aspect_ratio"] = [1 / x, x]
         if rng.random() < 0.35:
             rects = stog_rects(rng, fam, max_branches=2, sc=sc) if rng.random() < 0.6 else disjoint_rects(rng, fam, rng.randint(1, 3), sc=sc)
             if rng.random() < 0.5:
@@ -154,6 +157,8 @@ def gen_netlist_doc(rng, max_modules: int = 10, max_nets: int = 10, kinds=None, 
         for _ in range(rng.randint(0, max_nets)):
             k = rng.randint(2, min(6, n))
             e: list = rng.sample(names, k)
+            if rng.random() < 0.12:
+                e.insert(rng.randint(0, len(e)), rng.choice(e))      # two pins on the same module: a member listed twice
             w = rng.choice(WEIGHTS)
             if w is not None:
                 e.append(w)
